@@ -98,6 +98,9 @@ lazy_static! {
 static SHM_COUNT: AtomicUsize = AtomicUsize::new(0);
 
 pub fn channel() -> Result<(OsIpcSender, OsIpcReceiver), UnixError> {
+    #[cfg(ipc_channel_verif)]
+    #[allow(unused_imports)]
+    use crate::verif::sys::{self as libc, socketpair};
     let mut results = [0, 0];
     unsafe {
         if socketpair(
@@ -130,6 +133,9 @@ pub struct OsIpcReceiver {
 
 impl Drop for OsIpcReceiver {
     fn drop(&mut self) {
+        #[cfg(ipc_channel_verif)]
+        #[allow(unused_imports)]
+        use crate::verif::sys as libc;
         unsafe {
             if self.fd.get() >= 0 {
                 let result = libc::close(self.fd.get());
@@ -182,6 +188,9 @@ struct SharedFileDescriptor(c_int);
 
 impl Drop for SharedFileDescriptor {
     fn drop(&mut self) {
+        #[cfg(ipc_channel_verif)]
+        #[allow(unused_imports)]
+        use crate::verif::sys as libc;
         unsafe {
             let result = libc::close(self.0);
             assert!(thread::panicking() || result == 0);
@@ -212,6 +221,10 @@ impl OsIpcSender {
     /// Note: This is *not* the actual maximal packet size we are allowed to use...
     /// Some of it is reserved by the kernel for bookkeeping.
     fn get_system_sendbuf_size(&self) -> Result<usize, UnixError> {
+        #[cfg(ipc_channel_verif)]
+        if let Some(size) = crate::verif::sendbuf_override() {
+            return Ok(size);
+        }
         unsafe {
             let mut socket_sendbuf_size: usize = 0;
             let mut socket_sendbuf_size_len = mem::size_of::<usize>() as socklen_t;
@@ -267,6 +280,20 @@ impl OsIpcSender {
         channels: Vec<OsIpcChannel>,
         shared_memory_regions: Vec<OsIpcSharedMemory>,
     ) -> Result<(), UnixError> {
+        #[cfg(ipc_channel_verif)]
+        #[allow(unused_imports)]
+        use crate::verif::sys::{self as libc, sendmsg};
+        #[cfg(ipc_channel_verif)]
+        let _verif_scope = crate::verif::Scope::enter(
+            "os.send",
+            &[
+                ("fd", self.fd.0 as i64),
+                ("ino", crate::verif::ino(self.fd.0)),
+                ("len", data.len() as i64),
+                ("nch", channels.len() as i64),
+                ("nshm", shared_memory_regions.len() as i64),
+            ],
+        );
         let mut fds = Vec::new();
         for channel in channels.iter() {
             fds.push(channel.fd());
@@ -449,6 +476,9 @@ impl OsIpcSender {
     }
 
     pub fn connect(name: String) -> Result<OsIpcSender, UnixError> {
+        #[cfg(ipc_channel_verif)]
+        #[allow(unused_imports)]
+        use crate::verif::sys as libc;
         let name = CString::new(name).unwrap();
         unsafe {
             let fd = libc::socket(libc::AF_UNIX, SOCK_SEQPACKET | SOCK_FLAGS, 0);
@@ -491,6 +521,17 @@ pub struct OsIpcReceiverSet {
 
 impl Drop for OsIpcReceiverSet {
     fn drop(&mut self) {
+        #[cfg(ipc_channel_verif)]
+        #[allow(unused_imports)]
+        use crate::verif::sys as libc;
+        #[cfg(ipc_channel_verif)]
+        crate::verif::emit(
+            "set.drop",
+            &[
+                ("members", self.pollfds.len() as i64),
+                ("epfd", std::os::fd::AsRawFd::as_raw_fd(&self.poll) as i64),
+            ],
+        );
         for &PollEntry { id: _, fd } in self.pollfds.values() {
             let result = unsafe { libc::close(fd) };
             assert!(thread::panicking() || result == 0);
@@ -501,6 +542,8 @@ impl Drop for OsIpcReceiverSet {
 impl OsIpcReceiverSet {
     pub fn new() -> Result<OsIpcReceiverSet, UnixError> {
         let fnv = BuildHasherDefault::<FnvHasher>::default();
+        #[cfg(ipc_channel_verif)]
+        crate::verif::point("set.new", &[]);
         Ok(OsIpcReceiverSet {
             incrementor: 0..,
             poll: Poll::new()?,
@@ -512,6 +555,17 @@ impl OsIpcReceiverSet {
     pub fn add(&mut self, receiver: OsIpcReceiver) -> Result<u64, UnixError> {
         let last_index = self.incrementor.next().unwrap();
         let fd = receiver.consume_fd();
+        #[cfg(ipc_channel_verif)]
+        crate::verif::point(
+            "set.add",
+            &[
+                ("id", last_index as i64),
+                ("fd", fd as i64),
+                ("ino", crate::verif::ino(fd)),
+                ("cap", self.events.capacity() as i64),
+                ("epfd", std::os::fd::AsRawFd::as_raw_fd(&self.poll) as i64),
+            ],
+        );
         let fd_token = Token(fd as usize);
         let poll_entry = PollEntry { id: last_index, fd };
         self.poll
@@ -524,6 +578,8 @@ impl OsIpcReceiverSet {
     pub fn select(&mut self) -> Result<Vec<OsIpcSelectionResult>, UnixError> {
         // Poll until we receive at least one event.
         loop {
+            #[cfg(ipc_channel_verif)]
+            crate::verif::point("set.wait.call", &[("members", self.pollfds.len() as i64)]);
             match self.poll.poll(&mut self.events, None) {
                 Ok(()) if !self.events.is_empty() => break,
                 Ok(()) => {},
@@ -539,8 +595,12 @@ impl OsIpcReceiverSet {
             }
         }
 
+        #[cfg(ipc_channel_verif)]
+        crate::verif::emit("set.wait.ret", &[("n", self.events.iter().count() as i64)]);
         let mut selection_results = Vec::new();
         for event in self.events.iter() {
+            #[cfg(ipc_channel_verif)]
+            crate::verif::emit("set.event", &[("fd", event.token().0 as i64)]);
             // We only register this `Poll` for readable events.
             assert!(event.is_readable());
 
@@ -561,6 +621,10 @@ impl OsIpcReceiverSet {
                         ));
                     },
                     Err(err) if err.channel_is_closed() => {
+                        #[cfg(ipc_channel_verif)]
+                        use crate::verif::sys as libc;
+                        #[cfg(ipc_channel_verif)]
+                        crate::verif::emit("set.closed", &[("id", poll_entry.id as i64)]);
                         self.pollfds.remove(&event_token).unwrap();
                         self.poll
                             .registry()
@@ -584,6 +648,8 @@ impl OsIpcReceiverSet {
             }
         }
 
+        #[cfg(ipc_channel_verif)]
+        crate::verif::emit("set.ret", &[("n", selection_results.len() as i64)]);
         Ok(selection_results)
     }
 }
@@ -662,6 +728,9 @@ pub struct OsIpcOneShotServer {
 
 impl Drop for OsIpcOneShotServer {
     fn drop(&mut self) {
+        #[cfg(ipc_channel_verif)]
+        #[allow(unused_imports)]
+        use crate::verif::sys as libc;
         unsafe {
             let result = libc::close(self.fd);
             assert!(thread::panicking() || result == 0);
@@ -671,6 +740,9 @@ impl Drop for OsIpcOneShotServer {
 
 impl OsIpcOneShotServer {
     pub fn new() -> Result<(OsIpcOneShotServer, String), UnixError> {
+        #[cfg(ipc_channel_verif)]
+        #[allow(unused_imports)]
+        use crate::verif::sys as libc;
         unsafe {
             let fd = libc::socket(libc::AF_UNIX, SOCK_SEQPACKET | SOCK_FLAGS, 0);
             let temp_dir = Builder::new().tempdir()?;
@@ -714,6 +786,9 @@ impl OsIpcOneShotServer {
         ),
         UnixError,
     > {
+        #[cfg(ipc_channel_verif)]
+        #[allow(unused_imports)]
+        use crate::verif::sys as libc;
         unsafe {
             let sockaddr: *mut sockaddr = ptr::null_mut();
             let sockaddr_len: *mut socklen_t = ptr::null_mut();
@@ -783,6 +858,9 @@ impl BackingStore {
     }
 
     pub unsafe fn map_file(&self, length: Option<size_t>) -> (*mut u8, size_t) {
+        #[cfg(ipc_channel_verif)]
+        #[allow(unused_imports)]
+        use crate::verif::sys as libc;
         let length = length.unwrap_or_else(|| {
             let mut st = mem::MaybeUninit::uninit();
             assert!(libc::fstat(self.fd, st.as_mut_ptr()) == 0);
@@ -808,6 +886,9 @@ impl BackingStore {
 
 impl Drop for BackingStore {
     fn drop(&mut self) {
+        #[cfg(ipc_channel_verif)]
+        #[allow(unused_imports)]
+        use crate::verif::sys as libc;
         unsafe {
             let result = libc::close(self.fd);
             assert!(thread::panicking() || result == 0);
@@ -826,6 +907,9 @@ unsafe impl Sync for OsIpcSharedMemory {}
 
 impl Drop for OsIpcSharedMemory {
     fn drop(&mut self) {
+        #[cfg(ipc_channel_verif)]
+        #[allow(unused_imports)]
+        use crate::verif::sys as libc;
         unsafe {
             if !self.ptr.is_null() {
                 let result = libc::munmap(self.ptr as *mut c_void, self.length);
@@ -837,6 +921,9 @@ impl Drop for OsIpcSharedMemory {
 
 impl Clone for OsIpcSharedMemory {
     fn clone(&self) -> OsIpcSharedMemory {
+        #[cfg(ipc_channel_verif)]
+        #[allow(unused_imports)]
+        use crate::verif::sys as libc;
         unsafe {
             let store = BackingStore::from_fd(libc::dup(self.store.fd()));
             let (address, _) = store.map_file(Some(self.length));
@@ -862,6 +949,11 @@ impl Deref for OsIpcSharedMemory {
 
     #[inline]
     fn deref(&self) -> &[u8] {
+        #[cfg(ipc_channel_verif)]
+        crate::verif::emit(
+            "slice",
+            &[("addr", self.ptr as i64), ("len", self.length as i64)],
+        );
         unsafe { slice::from_raw_parts(self.ptr, self.length) }
     }
 }
@@ -995,6 +1087,25 @@ fn recv(
     blocking_mode: BlockingMode,
 ) -> Result<(Vec<u8>, Vec<OsOpaqueIpcChannel>, Vec<OsIpcSharedMemory>), UnixError> {
     let (mut channels, mut shared_memory_regions) = (Vec::new(), Vec::new());
+    #[cfg(ipc_channel_verif)]
+    #[allow(unused_imports)]
+    use crate::verif::sys as libc;
+    #[cfg(ipc_channel_verif)]
+    let _verif_scope = crate::verif::Scope::enter(
+        "os.recv",
+        &[
+            ("fd", fd as i64),
+            ("ino", crate::verif::ino(fd)),
+            (
+                "mode",
+                match blocking_mode {
+                    BlockingMode::Blocking => 0,
+                    BlockingMode::Nonblocking => 1,
+                    BlockingMode::Timeout(d) => 2 + d.as_micros() as i64,
+                },
+            ),
+        ],
+    );
 
     // First fragments begins with a header recording the total data length.
     //
@@ -1063,6 +1174,16 @@ fn recv(
         );
         let result = unsafe {
             assert!(end_pos <= main_data_buffer.capacity());
+            #[cfg(ipc_channel_verif)]
+            crate::verif::emit(
+                "recv.window",
+                &[
+                    ("write_pos", write_pos as i64),
+                    ("end_pos", end_pos as i64),
+                    ("capacity", main_data_buffer.capacity() as i64),
+                    ("total", total_size as i64),
+                ],
+            );
             main_data_buffer.set_len(end_pos);
 
             // Integer underflow could make the following code unsound...
@@ -1106,6 +1227,9 @@ fn new_msghdr(iovec: &mut [iovec], cmsg_buffer: *mut cmsghdr, cmsg_space: MsgCon
 
 #[cfg(not(all(target_os = "linux", feature = "memfd")))]
 fn create_shmem(name: CString, length: usize) -> c_int {
+    #[cfg(ipc_channel_verif)]
+    #[allow(unused_imports)]
+    use crate::verif::sys as libc;
     unsafe {
         // NB: the FreeBSD man page for shm_unlink states that it requires
         // write permissions, but testing shows that read-write is required.
@@ -1123,8 +1247,13 @@ fn create_shmem(name: CString, length: usize) -> c_int {
 
 #[cfg(all(feature = "memfd", target_os = "linux"))]
 fn create_shmem(name: CString, length: usize) -> c_int {
+    #[cfg(ipc_channel_verif)]
+    #[allow(unused_imports)]
+    use crate::verif::sys as libc;
     unsafe {
         let fd = memfd_create(name.as_ptr(), libc::MFD_CLOEXEC as usize);
+        #[cfg(ipc_channel_verif)]
+        crate::verif::fd_new("shm", fd);
         assert!(fd >= 0);
         assert!(libc::ftruncate(fd, length as off_t) == 0);
         fd
@@ -1140,6 +1269,9 @@ unsafe impl Send for UnixCmsg {}
 
 impl Drop for UnixCmsg {
     fn drop(&mut self) {
+        #[cfg(ipc_channel_verif)]
+        #[allow(unused_imports)]
+        use crate::verif::sys as libc;
         unsafe {
             libc::free(self.cmsg_buffer as *mut c_void);
         }
@@ -1148,6 +1280,9 @@ impl Drop for UnixCmsg {
 
 impl UnixCmsg {
     unsafe fn new(iovec: &mut [iovec]) -> Result<UnixCmsg, UnixError> {
+        #[cfg(ipc_channel_verif)]
+        #[allow(unused_imports)]
+        use crate::verif::sys as libc;
         let cmsg_length = CMSG_SPACE(MAX_FDS_IN_CMSG as usize * mem::size_of::<c_int>());
         let cmsg_buffer = libc::malloc(cmsg_length) as *mut cmsghdr;
         if cmsg_buffer.is_null() {
@@ -1160,6 +1295,9 @@ impl UnixCmsg {
     }
 
     unsafe fn recv(&mut self, fd: c_int, blocking_mode: BlockingMode) -> Result<usize, UnixError> {
+        #[cfg(ipc_channel_verif)]
+        #[allow(unused_imports)]
+        use crate::verif::sys::{self as libc, recvmsg};
         match blocking_mode {
             BlockingMode::Nonblocking => {
                 if libc::fcntl(fd, libc::F_SETFL, libc::O_NONBLOCK) < 0 {
@@ -1286,4 +1424,18 @@ struct cmsghdr {
 struct linger {
     l_onoff: c_int,
     l_linger: c_int,
+}
+
+/// Values the harness compares with the specification's transcription of the fragment arithmetic.
+#[cfg(ipc_channel_verif)]
+pub fn verif_constants(sendbuf_size: usize) -> [usize; 7] {
+    [
+        *SYSTEM_SENDBUF_SIZE,
+        OsIpcSender::get_max_fragment_size(),
+        OsIpcSender::fragment_size(sendbuf_size),
+        OsIpcSender::first_fragment_size(sendbuf_size),
+        MAX_FDS_IN_CMSG as usize,
+        RESERVED_SIZE,
+        10,
+    ]
 }
